@@ -31,6 +31,16 @@ static unsigned char* out_buf(size_t n)
 }
 static void out_free(unsigned char* p, size_t n) { free(n ? p : p - 1); }
 
+/* a FAILED fixed-length decode into the caller's buffer of exactly the declared capacity: the block is exact
+   (a write past the capacity is an ASan report) and carries a canary (the models say a failed decode writes nothing) */
+#define FAIL_INTO(call_, cap_) do { size_t cap__ = (cap_), i__, w__ = 0; \
+	if (cap__ > 4096) { printf("err"); break; } \
+	v = out_buf(cap__); memset(v, 0xC5, cap__); \
+	r = (call_); \
+	for (i__ = 0; i__ < cap__; ++i__) w__ |= (v[i__] != 0xC5); \
+	printf(r != ERR ? "null-mismatch" : w__ ? "err wrote" : "err"); \
+	out_free(v, cap__); } while (0)
+
 /* hex token -> exact-size C string (no zero octets inside); 0 = not a string */
 static char* str_arg(const char* s, size_t* len)
 {
@@ -255,7 +265,7 @@ static void handle(int argc, char** argv)
 		x = hex_arg(argv[1], &n);
 		tag = (u32)u_arg(argv[2]); len = (size_t)u_arg(argv[3]);
 		r = derTUINTDec2(0, x, n, tag, len);
-		if (r == ERR) printf("err");
+		if (r == ERR) FAIL_INTO(derTUINTDec2(v, x, n, tag, len), len);
 		else
 		{
 			v = out_buf(len);
@@ -305,7 +315,7 @@ static void handle(int argc, char** argv)
 		x = hex_arg(argv[1], &n);
 		tag = (u32)u_arg(argv[2]); len = (size_t)u_arg(argv[3]);
 		r = derTBITDec2(0, x, n, tag, len);
-		if (r == ERR) printf("err");
+		if (r == ERR) FAIL_INTO(derTBITDec2(v, x, n, tag, len), (len + 7) / 8);
 		else
 		{
 			size_t vl = (len + 7) / 8;
@@ -339,7 +349,7 @@ static void handle(int argc, char** argv)
 		x = hex_arg(argv[1], &n);
 		tag = (u32)u_arg(argv[2]); len = (size_t)u_arg(argv[3]);
 		r = derTOCTDec2(0, x, n, tag, len);
-		if (r == ERR) printf("err");
+		if (r == ERR) FAIL_INTO(derTOCTDec2(v, x, n, tag, len), len);
 		else
 		{
 			v = out_buf(len);
